@@ -875,6 +875,20 @@ def run(ctx):
         if o["rule"] == "C04-R3" and o["key"].startswith(("invalid-only-for-protocol-reasons", "defined-values-accepted", "error-bits")):
             res.check(o["ok"], "C13-R8", o["key"], o["loc"], o["detail"], o["detail"])
     res.floor("C13-R8", 7)
+    # what was stored is what is read back, whatever was read before: the readers are functions of the payload's bytes — a typed payload class
+    # keeps no data member of its own beside the buffer (a cached field position survives setData and then points into the old layout)
+    res.rule("C13-R10", "readers are functions of the bytes: the typed payload classes add no data members to Payload (C14-R1 `no-extra-members`, shared)")
+    n10 = 0
+    for base in ("ASAM::CMP::Payload",):
+        for d in sorted(fb.derived_from(base)):
+            dr = fb.record(d)
+            n10 += 1
+            res.check(not dr["fields"], "C13-R10", "%s:no-state-beside-the-bytes" % d.replace("ASAM::CMP::", ""), (dr["fields"][0].get("loc") if dr["fields"] else dr["loc"]),
+                      "no data member beside the payload buffer",
+                      "%s keeps %s beside the payload bytes: what its readers answer depends on earlier calls — after setData() rebuilt the payload a "
+                      "remembered position or value belongs to the old content and the getters report something else than was stored" %
+                      (d, ", ".join("`%s`" % x["name"] for x in dr["fields"])))
+    res.floor("C13-R10", 7, n10)
     # the data comes back whenever there is some: the pointer getter of a (pointer, length) pair answers nullptr only when its own length
     # getter says 0 / the payload has no bytes behind the header — not when some other field happens to be 0
     res.rule("C13-R9", "view pairs hand the stored data out: a data pointer getter returns nullptr only on paths that have found the pair's own length "
